@@ -163,7 +163,7 @@ pub fn unchecked(ctx: &Ctx) -> Stats {
             _ => {
                 let k = rng.usize(1, 31);
                 let bin_count = if rng.chance(1, 4) { 1 } else { rng.usize(1, 40) };
-                let bin_size = if rng.chance(1, 10) { usize::MAX / 2 } else { rng.usize(1, 60) };
+                let bin_size = if rng.chance(1, 10) { usize::MAX / 2 } else { rng.usize(1, 300) };
                 let len = gen_len(&mut rng, k, None, 150);
                 let (_, seq) = gen_seq_any(&mut rng, len, false);
                 // multiplicities: extreme values included
@@ -175,7 +175,7 @@ pub fn unchecked(ctx: &Ctx) -> Stats {
                             0 => u32::MAX,
                             1 => 0,
                             2 => rng.range(0, 10) as u32,
-                            3 => (bin_size.min(1 << 20) * bin_count) as u32,
+                            3 => (bin_size.min(1 << 20) * rng.usize(1, bin_count + 1)) as u32,
                             _ => rng.next_u64() as u32,
                         };
                         if mult > 0 || rng.chance(1, 2) {
